@@ -20,7 +20,7 @@ from vlib.par import pmap
 
 META = {
     "property_id": "C19",
-    "technique": "Lean 4 proof (idempotent formatters => repeatable write, observation purity; block-level fixed point) + byte-exact differential runs on the real writer",
+    "technique": "Lean 4 proof (idempotent formatters => repeatable write, observation purity; generation fixed point over the model of read_data: reader partition + written-body theorem) + byte-exact differential runs on the real writer",
     "design_ref": "6 C19",
 }
 
